@@ -766,6 +766,13 @@ func (eval Evaluator) tensorStandard(op0 *rlwe.Ciphertext, op1 *rlwe.Element[rin
 
 			eval.GadgetProduct(level, c2, &rlk.GadgetCiphertext, tmpCt)
 
+			// The key switch is defined up to the level of its key: above it nothing was computed
+			// (the buffers hold whatever they held), the result is at the level of the key.
+			if lvl := rlk.LevelQ(); lvl < level {
+				ringQ = ringQ.AtLevel(lvl)
+				opOut.Resize(opOut.Degree(), lvl)
+			}
+
 			ringQ.Add(opOut.Value[0], tmpCt.Value[0], opOut.Value[0])
 			ringQ.Add(opOut.Value[1], tmpCt.Value[1], opOut.Value[1])
 		}
@@ -1066,6 +1073,13 @@ func (eval Evaluator) tensorScaleInvariant(ct0 *rlwe.Ciphertext, ct1 *rlwe.Eleme
 		eval.GadgetProduct(level, c2, &rlk.GadgetCiphertext, tmpCt)
 
 		ringQ := eval.parameters.RingQ().AtLevel(level)
+
+		// The key switch is defined up to the level of its key: above it nothing was computed
+		// (the buffers hold whatever they held), the result is at the level of the key.
+		if lvl := rlk.LevelQ(); lvl < level {
+			ringQ = ringQ.AtLevel(lvl)
+			opOut.Resize(opOut.Degree(), lvl)
+		}
 
 		ringQ.Add(opOut.Value[0], tmpCt.Value[0], opOut.Value[0])
 		ringQ.Add(opOut.Value[1], tmpCt.Value[1], opOut.Value[1])
@@ -1399,6 +1413,13 @@ func (eval Evaluator) mulRelinThenAdd(op0 *rlwe.Ciphertext, op1 *rlwe.Element[ri
 			tmpCt.IsNTT = true
 
 			eval.GadgetProduct(level, c2, &rlk.GadgetCiphertext, tmpCt)
+
+			// The key switch is defined up to the level of its key: above it nothing was computed
+			// (the buffers hold whatever they held), the result is at the level of the key.
+			if lvl := rlk.LevelQ(); lvl < level {
+				ringQ = ringQ.AtLevel(lvl)
+				opOut.Resize(opOut.Degree(), lvl)
+			}
 
 			ringQ.Add(opOut.Value[0], tmpCt.Value[0], opOut.Value[0])
 			ringQ.Add(opOut.Value[1], tmpCt.Value[1], opOut.Value[1])
